@@ -283,7 +283,8 @@ class ResolvePortRefs(ElabPass):
 
         # Set the signal name, either from the NoConn or the instance/port names
         if noconn.name is not None:
-            sig.name = noconn.name
+            # The `NoConn`'s name is a request; it may not replace an existing attribute of that name.
+            sig.name = self.flatname(segments=[noconn.name], avoid=module.namespace)
         else:
             sig.name = self.flatname(
                 segments=[f"{portref.inst.name}_{portref.portname}"],
